@@ -23,7 +23,7 @@ import impl
 from common import driver_batch
 
 ID = 'C10'
-EXTRA_MODULES = ['Mistletoe.Proofs.Reflow', 'Mistletoe.Proofs.ReflowQuote', 'Mistletoe.Proofs.ReflowList', 'propsdriver']
+EXTRA_MODULES = ['Mistletoe.Proofs.Reflow', 'Mistletoe.Proofs.ReflowQuote', 'Mistletoe.Proofs.ReflowList', 'Mistletoe.Proofs.NoRebreak', 'propsdriver']
 RULE = ('fragment lists (word-wrappable text with all kinds of whitespace, glued fragments, hard breaks) x L in '
         '{None, 0, -3..120}; generated prose documents (plain words that cannot be mistaken for block markers; emphasis, '
         'strong, code spans with inner spaces, links with titles, images, hard breaks, link definitions, headings, code '
@@ -36,8 +36,10 @@ PARTIAL = ['meaning preservation, idempotence and the line bound on PARSED docum
            '(paragraphs of words without inline markup, at top level and inside any number of block quotes; Props/C10_Reflow.lean) and '
            'for such paragraphs inside list items (bullet and ordered lists in normal form, padding 1-4, tight or loose, nested to any '
            'depth, also inside block quotes; budget max(L - 2k - w, 1) with w the width of the item prefixes; Props/C10_Lists.lean); '
-           'a list directly behind a paragraph inside an item, block quotes inside items, hard breaks, inline markup, and '
-           'the non-rebreaking of code/HTML/table/ATX blocks are explored on the implementation']
+           'the clause "code blocks, HTML blocks, tables and ATX headings are not re-broken" is proved for EVERY token tree, limit and option '
+           'set (Props/C10_NoRebreak.lean; re-checked on the real renderer: c10.theorem.rigid); '
+           'a list directly behind a paragraph inside an item, block quotes inside items, hard breaks and inline markup are explored on '
+           'the implementation']
 
 WORDS = ['alpha', 'beta', 'gamma', 'delta', 'words', 'wrap', 'here', 'is', 'a', 'an', 'of', 'line', 'text', 'longerword',
          'x', 'Quite', 'End', 'averyveryverylongwordthatdoesnotfit', 'é', 'naïve', 'two', 'three']
@@ -274,6 +276,7 @@ def units(ctx):
         ctx.compare(unit, case, m, e)
     theorem_unit(ctx)
     theorem_unit_lists(ctx)
+    theorem_unit_rigid(ctx)
 
 
 TH_WORDS = WORDS + ['a.b', 'x1', 'q?', '(see', 'p.3)', 'isn\'t', 'k=v', '"quoted"', 'semi;colon', 'é', '日本', 'A', 'co-op', 'end.',
@@ -381,6 +384,58 @@ def theorem_unit_lists(ctx):
                     kind=('L<=10' if L <= 10 else 'L>10') + ',depth%d' % q['depth'])
     ctx.notes.append('of %d generated documents with lists %d satisfy the hypothesis oksP of C10_list_reflow_quoted_partial (%d contain a list)'
                      % (len(reqs), n_ok, n_list))
+
+
+RIGID_BLOCKS = ['# a very long heading line that exceeds every small limit by far\n', '## short ##\n', '```py\nlong code line here, far too long for the limit\n```\n',
+                '    indented code line that is quite long as well\n', '| a very long cell of a table | b |\n|---|:-:|\n| c d e f g | h |\n',
+                '<div class="x">long html line here, also too long</div>\n', '***\n', '~~~\n~~~\n', '<!-- a comment that is long enough to matter -->\n']
+SOFT_BLOCKS = ['a paragraph of several words that will be wrapped\n', 'Title words here\n===\n', '[ref]: /url "a title of several words"\n']
+
+
+def theorem_unit_rigid(ctx):
+    """`C10_not_rebroken_document` on the real renderer: documents all of whose leaf blocks are code blocks, HTML blocks, tables, ATX
+    headings, thematic breaks - at top level, in block quotes, in list items - render to the same text whatever max_line_length;
+    the hypothesis (`rigidDeepAll`) is evaluated by Lean on the REAL token tree"""
+    import export
+    rng = ctx.rng('theorem-rigid')
+    docs = []
+    for _ in range(ctx.budget(500, 5000)):
+        parts = []
+        for _k in range(rng.randint(1, 4)):
+            b = rng.choice(RIGID_BLOCKS if rng.random() < 0.9 else SOFT_BLOCKS)
+            c = rng.random()
+            if c < 0.25:
+                b = ''.join('> ' + l + '\n' for l in b.rstrip('\n').split('\n'))
+            elif c < 0.5:
+                ls = b.rstrip('\n').split('\n')
+                b = '- ' + ls[0] + '\n' + ''.join('  ' + l + '\n' for l in ls[1:])
+            parts.append(b)
+        docs.append('\n'.join(parts))
+    reqs, meta = [], []
+    for t in docs:
+        try:
+            doc = impl.parse_only('MarkdownRenderer', {}, t)
+            tree = export.export_doc(doc, check_parent=False)
+        except Exception:
+            continue
+        reqs.append({'op': 'c10.rigid', 'doc': tree})
+        meta.append(t)
+    res = common.driver_batch(reqs, binary=common.PROPS_DRIVER)
+    n_ok = 0
+    for t, r in zip(meta, res):
+        if not (isinstance(r, dict) and r.get('rigid')):
+            continue
+        n_ok += 1
+        L = rng.choice([1, 2, 5, 10, 20])
+        nw = rng.random() < 0.5
+        try:
+            base = impl.parse_render('MarkdownRenderer', {'normalize_whitespace': nw}, t)[1]
+            real = impl.parse_render('MarkdownRenderer', {'max_line_length': L, 'normalize_whitespace': nw}, t)[1]
+        except Exception as e:
+            base, real = None, {'raises': type(e).__name__}
+        ctx.compare('c10.theorem.rigid', {'text': t, 'L': L, 'normalize_whitespace': nw}, base, real, kind='L%d' % L)
+    ctx.notes.append('of %d generated documents %d consist of non-rebreakable blocks only (rigidDeepAll, evaluated on the real token tree)'
+                     % (len(meta), n_ok))
 
 
 def _docs(ctx):
